@@ -161,7 +161,11 @@ func mergeAndPersistInvertedSection(segments []*SegmentBase, dropsIn []*roaring.
 		use1HitEncoding := func(termCardinality uint64) (bool, uint64, uint64) {
 			if termCardinality == uint64(1) && locEncoder.FinalSize() <= 0 {
 				docNum := uint64(newRoaring.Minimum())
-				if under32Bits(docNum) && docNum == lastDocNum && lastFreq == 1 {
+				// the 1-hit form keeps 31 bits of the norm and is recognised by the
+				// reader through those bits being non-zero: a hit whose norm bits
+				// are zero, or need more than 31 bits, takes the general form
+				if under32Bits(docNum) && docNum == lastDocNum && lastFreq == 1 &&
+					lastNorm != 0 && under32Bits(lastNorm) {
 					return true, docNum, lastNorm
 				}
 			}
